@@ -217,8 +217,11 @@ def main(argv=None):
     pk = known.get(prop, {})
     new = []
     listed = []
+    used = {}
     for v in res.violations:
-        if v.key in pk:
+        # a listed finding covers up to `count` sites with its key (default 1); one more site with the same key is new
+        if v.key in pk and used.get(v.key, 0) < int(pk[v.key].get("count", 1)):
+            used[v.key] = used.get(v.key, 0) + 1
             listed.append(v)
         else:
             new.append(v)
